@@ -140,10 +140,17 @@ func (s *Stream) readMore(minSize int) (err error) {
 	}
 
 	if recvLen == 0 && !s.IsOpen() {
-		if s.getStreamState() == uint32(streamHalfClosed) {
-			return ErrEndOfStream
+		// the peer's data could arrive together with its close after recvLen was computed, take it before reporting the end.
+		s.pendingData.moveTo(s.recvBuf)
+		if recvLen = s.recvBuf.Len(); recvLen >= minSize {
+			return nil
 		}
-		return ErrStreamClosed
+		if recvLen == 0 {
+			if s.getStreamState() == uint32(streamHalfClosed) {
+				return ErrEndOfStream
+			}
+			return ErrStreamClosed
+		}
 	}
 
 	var timeoutCh <-chan time.Time
